@@ -528,7 +528,7 @@ func c13DrawDoc(rt *rapid.T, corp *gen.Corpus) c13Doc {
 	case 9:
 		return c13Doc{Kind: "modfile", Text: c15GenManifest(rt).Text}
 	case 10:
-		ms := gen.Modules(rt, gen.ModOpts{MaxConflicts: 1, MaxFiles: 3, Layout: true})
+		ms := gen.Modules(rt, gen.ModOpts{MaxConflicts: 1, MaxFiles: 3, Layout: true, Scale: true})
 		d := c13Doc{Kind: "merge", Text: ms.Files[0].Text}
 		for _, f := range ms.Files[1:] {
 			d.More = append(d.More, f.Text)
